@@ -10,6 +10,7 @@ import (
 	"fmt"
 	"io"
 	"net"
+	"sync"
 
 	hclog "github.com/hashicorp/go-hclog"
 	"github.com/hashicorp/go-plugin/internal/grpcmux"
@@ -64,6 +65,10 @@ type GRPCServer struct {
 	logger hclog.Logger
 
 	muxer *grpcmux.GRPCServerMuxer
+
+	// brokerLock guards broker, which Stop and GracefulStop may be asked to
+	// close from several goroutines at once.
+	brokerLock sync.Mutex
 }
 
 // ServerProtocol impl.
@@ -117,17 +122,19 @@ func (s *GRPCServer) Init() error {
 // grpc.Broker if present.
 func (s *GRPCServer) Stop() {
 	s.server.Stop()
-
-	if s.broker != nil {
-		s.broker.Close()
-		s.broker = nil
-	}
+	s.closeBroker()
 }
 
 // GracefulStop calls GracefulStop on the underlying grpc.Server and Close on
 // the underlying grpc.Broker if present.
 func (s *GRPCServer) GracefulStop() {
 	s.server.GracefulStop()
+	s.closeBroker()
+}
+
+func (s *GRPCServer) closeBroker() {
+	s.brokerLock.Lock()
+	defer s.brokerLock.Unlock()
 
 	if s.broker != nil {
 		s.broker.Close()
